@@ -206,7 +206,10 @@ Definition nhc_ext_next_header_size (b : list Z) : outcome Z :=
 Definition nhc_ext_check_len (b : list Z) : outcome unit :=
   if blen b =? 0 then Err 0 else
   do n <- nhc_ext_next_header_size b;
-  if 2 + n <=? blen b then Ok tt else Err 0.
+  if blen b <? 2 + n then Err 0 else
+  (* repair 2b2776a: the payload announced by the length field must be present as well *)
+  do len <- wb_get_u8 b (1 + n);
+  if 2 + n + len <=? blen b then Ok tt else Err 0.
 
 (* new_checked: check_len, then eid_field() > 7 (never true for a 3-bit field) *)
 Definition nhc_ext_new_checked (b : list Z) : outcome unit :=
